@@ -280,34 +280,39 @@ func checkReferenceFiller(r *core.Run, p *core.Program, a *analysis, rule string
 	} else {
 		setter := f.Obj.Type().(*types.Signature).Params().At(1)
 		immediate, queued := false, false
+		// ok variable of the `value, ok := markedValues[id]` lookup
+		var okObj types.Object
 		ast.Inspect(f.Decl.Body, func(nd ast.Node) bool {
-			switch s := nd.(type) {
-			case *ast.IfStmt:
-				// if value, ok := markedValues[id]; ok { setter(value); return }
-				callsSetter, returns := false, false
-				for _, st := range s.Body.List {
-					if es, ok := st.(*ast.ExprStmt); ok {
-						if c, ok := es.X.(*ast.CallExpr); ok && objOf(info, c.Fun) == setter {
-							callsSetter = true
-						}
-					}
-					if _, ok := st.(*ast.ReturnStmt); ok {
-						returns = true
+			if as, ok := nd.(*ast.AssignStmt); ok && len(as.Lhs) == 2 && len(as.Rhs) == 1 {
+				if ix, ok := stripParens(as.Rhs[0]).(*ast.IndexExpr); ok {
+					if fld := fieldOf(info, ix.X); fld != nil && fld.Name() == "markedValues" {
+						okObj = objOf(info, as.Lhs[1])
 					}
 				}
-				if as, ok := s.Init.(*ast.AssignStmt); ok && len(as.Rhs) == 1 {
-					if ix, ok := as.Rhs[0].(*ast.IndexExpr); ok {
-						if fld := fieldOf(info, ix.X); fld != nil && fld.Name() == "markedValues" && callsSetter && returns {
-							immediate = true
-						}
+			}
+			return true
+		})
+		isOK := func(e ast.Expr) bool { return okObj != nil && objOf(info, e) == okObj }
+		ast.Inspect(f.Decl.Body, func(nd ast.Node) bool {
+			switch s := nd.(type) {
+			case *ast.CallExpr:
+				// setter(value): only where the marker is known
+				if objOf(info, s.Fun) == setter {
+					conds, pols := pathConds(a, info, f, s)
+					if impliesAtomValue(info, f, conds, pols, isOK, true) {
+						immediate = true
 					}
 				}
 			case *ast.AssignStmt:
+				// unresolvedReferences[id] = append(…, setter): only where the marker is not known
 				if len(s.Lhs) == 1 && len(s.Rhs) == 1 {
 					if ix, ok := s.Lhs[0].(*ast.IndexExpr); ok {
 						if fld := fieldOf(info, ix.X); fld != nil && fld.Name() == "unresolvedReferences" {
 							if c, ok := s.Rhs[0].(*ast.CallExpr); ok && len(c.Args) == 2 && objOf(info, c.Args[1]) == setter {
-								queued = true
+								conds, pols := pathConds(a, info, f, s)
+								if impliesAtomValue(info, f, conds, pols, isOK, false) {
+									queued = true
+								}
 							}
 						}
 					}
